@@ -148,6 +148,24 @@ def _fn_files():
     return {"coq": text, "translated": done, "refused": failed}
 
 
+@unit("fn_files3")
+def _fn_files3():
+    """FileAnonymizer.__init__: which anonymizers a set of options switches on and what each is given.  The constructors of the four anonymizer
+    classes, generate_default_sensitive_item_regexes, random.choice and the module-level reserved-word set are uninterpreted (calls of the py_call
+    parameter); a set is represented by a list of its elements (only membership is asked of the reserved words afterwards)"""
+    import os
+
+    sys.path.insert(0, os.path.dirname(os.path.abspath(__file__)))
+    import translate
+    import netconan.anonymize_files as pm
+
+    text, done, failed = translate.translate_module(
+        pm.__file__, pm, wanted=[("FileAnonymizer", "__init__")],
+        oracles=("generate_default_sensitive_item_regexes", "SensitiveWordAnonymizer", "IpAnonymizer", "IpV6Anonymizer", "AsNumberAnonymizer", "random.choice"),
+        global_oracles=("default_reserved_words",), sets_as_lists=True)
+    return {"coq": text, "translated": done, "refused": failed}
+
+
 @unit("fn_files2")
 def _fn_files2():
     """FileAnonymizer.anonymize_io once more, this time calling the GENERATED stage functions (G_fn_sir2, G_fn_ip2) instead of leaving the stages
